@@ -92,7 +92,10 @@ func runCtxCase(w *wctx, c ctxCase) {
 		if v.label == "1<<31" {
 			hugeBegin()
 		}
-		g := guard(func() {
+		g := guardHuge(v.label == "1<<31", func() {
+			if v.label == "1<<31" {
+				hugeBarrier()
+			}
 			if serr = s.SetOption(c.name, v.v); serr != nil {
 				return
 			}
